@@ -186,9 +186,34 @@ class SchedQueue(queue.Queue):
             item = super().get(block=False)
         except queue.Empty:
             self.ctl.timed_out("C")
+            self.ctl.event("get_timeout")
             raise
         self.ctl.event("get", self.describe(item))
         return item
+
+
+class PollingQueue(SchedQueue):
+    """Harness-side polling consumers around the REAL `_predict_generator` (which calls a blocking
+    `get()`): the blocking get is performed as a retry loop of timed gets under the controller.
+      giveup=False  `except Empty: continue`                       (Poll.v: Polling — correct)
+      giveup=True   `except Empty: if not reader.is_alive(): return {"image": None}`
+                                                                    (Poll.v: GiveUp — the race of C13_m4)
+    Used for the polling stream and the positive control of the exploration order."""
+
+    def __init__(self, maxsize, ctl, describe, giveup=False):
+        super().__init__(maxsize, ctl, describe)
+        self.giveup = giveup
+        self.reader = None
+
+    def get(self, block=True, timeout=None):
+        if not (block and timeout is None):
+            return SchedQueue.get(self, block, timeout)
+        while True:
+            try:
+                return SchedQueue.get(self, True, 1.0)
+            except queue.Empty:
+                if self.giveup and not self.reader.is_alive():
+                    return {"image": None}
 
 
 def describe_item(item):
@@ -236,11 +261,24 @@ class FakeVideo:
         return self.np.full((h, w, 1), int(idx) % 251, dtype="uint8")
 
 
-class _FakeInst:
-    is_empty = False
+VID_PATTERN = [1, 0, 0, 2, 1, 2, 0]
 
-    def __init__(self, np, i):
+
+def vid_of(i: int, n_videos: int) -> int:
+    """Which video of a multi-video Labels the labelled frame at position i belongs to."""
+    return VID_PATTERN[i % len(VID_PATTERN)] % n_videos
+
+
+def vid_shape(v: int):
+    return (1, 4 + v, 6 + 2 * ((v + 1) % 3), 1)
+
+
+class _FakeInst:
+    def __init__(self, np, i, empty=False):
+        self.is_empty = empty
         self._a = np.array([[float(i), 1.0], [2.0, float(i) + 3.0]], dtype="float32")
+        if empty:
+            self._a = self._a * np.nan
 
     def numpy(self):
         return self._a
@@ -250,8 +288,12 @@ class _FakeLF:
     def __init__(self, owner, i):
         self.owner, self.i = owner, i
         self.frame_idx = frame_label(i)
-        self.video = owner.videos[0]
-        self.instances = [_FakeInst(owner.np, i)]      # one animal per frame (used when instances_key=True)
+        self.video = owner.videos[vid_of(i, len(owner.videos))]
+        # one animal per frame (used when instances_key=True); a "bare" frame has no non-empty instance
+        if i in owner.bare:
+            self.instances = [_FakeInst(owner.np, i, empty=True)] if i % 2 else []
+        else:
+            self.instances = [_FakeInst(owner.np, i)]
 
     @property
     def image(self):
@@ -268,18 +310,25 @@ class _FakeLF:
 
 
 class _FakeVid:
-    shape = (1, 4, 6, 1)
+    def __init__(self, v=0):
+        self.shape = vid_shape(v)
+
+
+class _FakeNodes:
+    nodes = ["a", "b"]
 
 
 class FakeLabels:
     """labels[idx] is a scheduling point; the fault is raised either by labels[idx]
     or by lf.image (fault_in_image)."""
 
-    def __init__(self, n: int, fault, ctl: Controller, fault_in_image: bool):
+    def __init__(self, n: int, fault, ctl: Controller, fault_in_image: bool, n_videos: int = 1, bare=()):
         import numpy as np
         self.np = np
         self.n, self.fault, self.ctl, self.fault_in_image = n, fault, ctl, fault_in_image
-        self.videos = [_FakeVid()]
+        self.videos = [_FakeVid(v) for v in range(n_videos)]
+        self.bare = set(bare)
+        self.skeletons = [_FakeNodes()]
 
     def __len__(self):
         return self.n
@@ -340,7 +389,9 @@ def repo_classes():
                 import threading
                 if threading.current_thread() is not self and self._sv_ctl.live.get("C", False):
                     self._sv_ctl.park("C", ("alive",))
-                    return bool(self._sv_ctl.live.get("P", False))
+                    a = bool(self._sv_ctl.live.get("P", False))
+                    self._sv_ctl.event("alive", a)
+                    return a
                 return Thread.is_alive(self)
         Controlled.__name__ = "Controlled" + base.__name__
         return Controlled
@@ -383,32 +434,82 @@ def stub_inference_model(ex):
 
 def run_schedule(reader: str, start: int, end: int, cap: int, batch: int, fault, choices: str,
                  default: str = "P", fault_in_image: bool = False, defaults: bool = False,
-                 instances_key: bool = False, yield_point: bool = False) -> dict:
+                 instances_key: bool = False, yield_point: bool = False, ctor: str = "direct",
+                 args=None, n_videos: int = 1, bare=(), poll: str = "none", infer_raises_at=None) -> dict:
     """One controlled execution.  `reader` is 'video' or 'labels' (labels: start must be 0).
     `yield_point`: make the hand-over of a yielded batch a scheduling point too.
     `defaults`: construct the VideoReader with start_idx=None, end_idx=None (start must be 0; the
     fake video then has exactly `end` frames).
+    `args` = [start_idx, end_idx, n_total] as given to the constructor (None = argument omitted / None);
+    (start, end) must be the range these resolve to.  `ctor` = 'direct' (the class constructor) or
+    'from_filename' (the classmethod: sio.load_video / sio.load_slp and the Queue class it builds its
+    buffer from are substituted in the providers module for the duration of the call).
+    `n_videos`, `bare`: multi-video labels; positions whose labelled frame has no non-empty instance.
+    `poll`: 'none' | 'retry' | 'giveup' (see PollingQueue).  `infer_raises_at`: the inference callable
+    raises at its k-th call (observation stream).
     Returns the trace, the yielded batches, the status and the choice letters used."""
     cl = repo_classes()
     ctl = Controller(choices, default)
-    fb = SchedQueue(cap, ctl, describe_item)
+
+    def make_queue(maxsize=0):
+        if poll == "none":
+            return SchedQueue(maxsize, ctl, describe_item)
+        return PollingQueue(maxsize, ctl, describe_item, giveup=(poll == "giveup"))
+
     if reader == "video":
-        if defaults:
+        if args is not None:
+            a_start, a_end, n_total = args
+        elif defaults:
             assert start == 0
-            src = FakeVideo(end, fault, ctl)
-            rd = cl["VideoReader"](src, fb, None, None)
+            a_start, a_end, n_total = None, None, end
         else:
-            src = FakeVideo(max(end, start) + 2, fault, ctl)
-            rd = cl["VideoReader"](src, fb, start, end)
+            a_start, a_end, n_total = start, end, max(end, start) + 2
+        src = FakeVideo(n_total, fault, ctl)
     else:
         assert start == 0
-        src = FakeLabels(end, fault, ctl, fault_in_image)
-        rd = cl["LabelsReader"](src, fb, instances_key=instances_key)
+        src = FakeLabels(end, fault, ctl, fault_in_image, n_videos=n_videos, bare=bare)
+    if ctor == "from_filename":
+        import sleap_nn.data.providers as prov
+        saved = (prov.Queue, prov.sio.load_video, prov.sio.load_slp)
+        prov.Queue = make_queue
+        prov.sio.load_video = lambda filename: src
+        prov.sio.load_slp = lambda filename: src
+        try:
+            if reader == "video":
+                kw = {}
+                if a_start is not None or args is None:
+                    kw["start_idx"] = a_start
+                if a_end is not None or args is None:
+                    kw["end_idx"] = a_end
+                rd = cl["VideoReader"].from_filename("fake.mp4", cap, **kw)
+            else:
+                rd = cl["LabelsReader"].from_filename("fake.slp", cap, instances_key=instances_key)
+        finally:
+            prov.Queue, prov.sio.load_video, prov.sio.load_slp = saved
+        fb = rd.frame_buffer
+    else:
+        fb = make_queue(cap)
+        if reader == "video":
+            rd = cl["VideoReader"](src, fb, a_start, a_end)
+        else:
+            rd = cl["LabelsReader"](src, fb, instances_key=instances_key)
+    if poll != "none":
+        fb.reader = rd
     rd._sv_init(ctl)
+    total_len = rd.total_len()
+    max_hw = [int(x) for x in rd.max_height_and_width]
+    calls = [0]
+
+    def infer(ex):
+        calls[0] += 1
+        if infer_raises_at is not None and calls[0] == infer_raises_at:
+            raise ValueError("inference callable failed (injected)")
+        return stub_inference_model(ex)
+
     pred = cl["Predictor"](preprocess=False,
                            preprocess_config={"batch_size": batch, "scale": 1.0, "is_rgb": False,
                                               "max_stride": 1, "max_height": 8, "max_width": 8},
-                           pipeline=rd, inference_model=stub_inference_model,
+                           pipeline=rd, inference_model=infer,
                            instances_key=bool(instances_key and reader == "labels"))
     yielded = []
 
@@ -418,9 +519,10 @@ def run_schedule(reader: str, start: int, end: int, cap: int, batch: int, fault,
             for out in pred._predict_generator():          # the repo's generator
                 rec = {"frame_idx": [int(x) for x in out["frame_idx"]],
                        "size": [[int(v) for v in r] for r in out["orig_size"]],
+                       "video_idx": [int(x) for x in out["video_idx"]],
                        "n_img": int(out["n_img"])}
                 if "inst0" in out:
-                    rec["inst0"] = [float(x) for x in out["inst0"]]
+                    rec["inst0"] = [None if x != x else float(x) for x in out["inst0"].tolist()]
                 yielded.append(rec)
                 if yield_point:
                     # the caller of the generator is slow: the reader may run between the last get of a
@@ -444,4 +546,5 @@ def run_schedule(reader: str, start: int, end: int, cap: int, batch: int, fault,
     return {"status": status, "trace": ctl.trace, "yielded": yielded, "taken": "".join(ctl.taken),
             "choice_points": ctl.n_choice_points, "errors": ctl.errors,
             "stuck": {k: list(v) if v else None for k, v in getattr(ctl, "stuck", {}).items()},
-            "leaked_threads": len(leaked), "queue_left": fb.qsize()}
+            "leaked_threads": len(leaked), "queue_left": fb.qsize(),
+            "total_len": int(total_len), "max_hw": max_hw, "steps": ctl.steps}
